@@ -41,12 +41,12 @@ one was found and `no-failing-input-found` otherwise (§2.4).
 | C08 | `Poc`; 17 | exact-rational correspondence + recorded optimiser inputs | ≈ 60 s |
 | C12 | `Hash`; 16 | byte-exact pre-image correspondence | ≈ 11 s |
 | C13 C18 | `Registry`, generated attribute tables; 7 + 12 | mutant modules, call sequences | 3–4 s |
-| C14 | `Order` + generated requirement table; 13 (`decide +kernel` over all selections) | exhaustive correspondence | ≈ 6 s |
+| C14 | `Order` + generated requirement table; 14 (`decide +kernel` over all selections) | exhaustive correspondence | ≈ 6 s |
 | C15 | `TrainingSet`; 9 | real training-set directories at exact rationals | ≈ 5 s |
 | C16 | `Container`; 10 | h5 dumps + fault injection at every write | ≈ 55 s |
 | C17 | `Features`; 26 | stub datasets at exact rationals; names exhaustively | ≈ 10 s |
 | C19 | `Profile` + generated defaults; 11 | files + scripted input | ≈ 14 s |
-| C20 | `Loading`; 9 | recorded reader progress; real maps | ≈ 10 s |
+| C20 | `Loading`; 10 | recorded reader progress; real maps | ≈ 10 s |
 
 ### 9.2 Genuine defects found and repaired in `/repo` (one `fix:` commit each; unedited 176 tests pass)
 
@@ -133,15 +133,16 @@ corrected with `gcf_k` turned out to violate C04 and C11 once the generator cove
 
 ### 9.5 Seeded changes (independent sub-agents, property text + scratch worktree only)
 
-Sixty-seven changes are kept under `seeded/<id>/` (`patch.diff`, `demo.py`, `meta.json`; each confirmed by
+Ninety-eight changes are kept under `seeded/<id>/` (`patch.diff`, `demo.py`, `meta.json`; each confirmed by
 me in a scratch worktree: demo passes on HEAD, fails with the change, 176 tests pass with it): forty
-from the first round (two per property), ten from a second round of eight agents (C04, C05, C07, C08, C11,
-C13, C17, C20) and seventeen from a third round of twelve agents (C01, C02, C03, C06, C09, C10, C12, C14,
-C15, C16, C18, C19); thirteen further submissions duplicated earlier changes and were not kept.  C04c, C11a,
-C11b and C11c were re-expressed on the tree in which the contact-point limits are corrected with `gcf_k`,
-and re-confirmed.
+from the first round (two per property), ten from a second round of eight agents, seventeen from a third round
+of twelve agents, and thirty-one from a fourth round of twenty agents that were asked to avoid the most obvious
+slips (interactions between functions, fallback branches, caches, argument defaults, unusual option
+combinations); twenty-two further submissions duplicated earlier changes and were not kept.  C04c, C11a, C11b
+and C11c were re-expressed on the tree in which the contact-point limits are corrected with `gcf_k`, and
+re-confirmed.
 `tools/run_seeds.py` applies each to `/repo`, runs the quick check of its property, undoes it and
-writes `seeded/RESULTS.json`.  All sixty-seven are reported by `./check <property> --tier quick` with a
+writes `seeded/RESULTS.json`.  All ninety-eight are reported by `./check <property> --tier quick` with a
 concrete failing input (none only as `no-failing-input-found`).
 
 | seed | change | caught by |
@@ -172,6 +173,20 @@ Checks that had to be strengthened because a seed was first missed or reported o
   rule “keys of `get_parameter_defaults` = `parameter_keys`” as an oracle – C18c; ancillary keys of every model
   across register / query / deregister – C18d), C19 (repeated setup runs on an existing profile, answer 0 –
   C19d).
+
+* fourth round (15 of 31 were first missed, 2 had no failing input): C01 (defaults isolation across curves –
+  C01d), C03 (interval bounds / widths / factors changing in the last digits – C03d), C05 (settings passed in an
+  earlier call than the one that uses them; inverted intervals with the plateau search – C05d/e), C07 (a step
+  listed a second time – C07e), C08 (integer and single-precision element types – C08f), C09 (a rater built
+  directly from the regressor table as reference; training sets that differ only in the middle rows; a user
+  directory rewritten in place – C09d), C11 (fixed contact point that carries limits – C11d; the scanned depths
+  of the plateau search must not depend on k – C11e, previously hidden by the “different plateau” guard), C12
+  (limits of exactly zero – C12d), C13 (writing into a returned array; no point in contact, both orientations –
+  C13c/d), C14 (every entry point incl. the deprecated keyword – C14e), C16 (the same raw curve in two containers
+  loaded in one process – C16e), C17 (retract-segment fits – C17d), C19 (the batch fit must use the profile's
+  current model, interval and parameters incl. the model's limits – C19f), C20 (a refused curve must not stay
+  in the group – C20e).  A side remark of one agent (shared mutable `FP_DEFAULT` objects in `fit_properties`)
+  was reproduced, repaired (773cbd2) and is now probed by `./check C10`.
 
 ### 9.6 Observations that are not findings
 
